@@ -15,9 +15,13 @@
   PROVED (full strength for the stated forms)
    * integer fields; `\X` and `\DDD` escapes; domain names in any mix of raw / `\X` / `\DDD`
      octet forms (incl. escaped dots, blanks, newlines, with the line count): absolute names,
-     relative names completed with the origin, `@`; `CLASSnnn`, `TYPEnnn`; `\# len hex` RDATA for
-     any class and type, checked against `Rdata::validate`; the lexical layer on blanks, comments
-     and line ends;
+     relative names completed with the origin, `@`; the lexical layer on blanks, comments and
+     line ends;
+   * TYPE and CLASS fields: the mnemonics (A NS MD MF CNAME SOA MB MG MR WKS PTR HINFO MINFO MX
+     TXT AAAA SRV; IN CH HS) in any mix of upper and lower case, and `TYPEnnn` / `CLASSnnn`;
+   * RDATA (`C23_rdata_partial`): `\# len hex` for any class and type, checked against
+     `Rdata::validate`; and the typed syntaxes of NS MD MF CNAME MB MG MR PTR (one name), MX, SOA,
+     MINFO, SRV — names absolute, relative or `@`, in any octet forms, with the lines they span;
    * records assembled from these, with TTL and class each written or omitted, in either order (context
      defaults: `$TTL` default before previous TTL; previous class), owner absolute / relative /
      `@` / omitted (leading blanks ⇒ previous owner); `$ORIGIN` and `$TTL` directive lines; blank
@@ -25,14 +29,14 @@
    * whole files of such entries: exactly the denoted records, in order, with line numbers
      (`C23_records_partial`).
   NOT PROVED (the gap; the name says `_partial`)
-     type and class mnemonics, the typed RDATA syntaxes (A, AAAA, names,
-     SOA, MX, TXT/HINFO strings quoted and unquoted, WKS, SRV, …), parentheses across lines,
-     CRLF, a last line without newline.  These are covered on every run by the correspondence
-     oracle, which is independent of these proofs: the harness's pretty-printer renders random
-     record lists with random choices for *all* of the above and the expected parse is the
-     generating record list (op `zfp`, spec column = expected records).
+     the typed RDATA syntaxes of A, TXT, HINFO (presentation AST and denotation are in the Spec,
+     `WFRdata` excludes them), AAAA, WKS, Chaosnet A; parentheses across lines, CRLF, a last
+     line without newline.  These are covered on every run by the correspondence oracle, which is
+     independent of these proofs: the harness's pretty-printer renders random record lists with
+     random choices for *all* of the above and the expected parse is the generating record list
+     (op `zfp`, spec column = expected records).
 -/
-import QV.Proofs.ZoneFile.Records
+import QV.Proofs.ZoneFile.Files
 
 namespace QV.C23
 open QV QV.ZF QV.Spec.ZF
@@ -59,13 +63,42 @@ theorem C23_absolute_name (origin : Option (List UInt8)) (ls : List PLabel) (hne
     (htotal : (flatLabels (ls.map labelOctets)).length + 1 ≤ 255)
     (rest : List UInt8) (hrest : atFieldEnd rest = true) (line : Nat) (paren : Bool) :
     parseName origin ⟨renderAbsName ls ++ rest, line, paren⟩ =
-      .ok (wireName (ls.map labelOctets), ⟨rest, line + ownerLines (.abs ls), paren⟩) :=
+      .ok (wireName (ls.map labelOctets), ⟨rest, line + nameLines (.abs ls), paren⟩) :=
   parseName_abs origin ls hne hforms hLs htotal rest hrest line paren
+
+/-- relative names are completed with the origin; `@` is the origin -/
+theorem C23_relative_name (o : List UInt8) (ho : NameWF o) (ls : List PLabel) (l : PLabel)
+    (hforms : ∀ l' ∈ ls ++ [l], ∀ x ∈ l', nameFormOK x.1 x.2 = true)
+    (hLs : LabelsOK ((ls ++ [l]).map labelOctets))
+    (htotal : (wireLabels ((ls ++ [l]).map labelOctets)).length + o.length ≤ 255)
+    (hnotat : renderLabels (ls ++ [l]) ≠ [64])
+    (rest : List UInt8) (hrest : atFieldEnd rest = true) (line : Nat) (paren : Bool) :
+    parseName (some o) ⟨renderLabels (ls ++ [l]) ++ rest, line, paren⟩ =
+      .ok (wireLabels ((ls ++ [l]).map labelOctets) ++ o, ⟨rest, line + nameLines (.rel ls l), paren⟩) ∧
+    parseName (some o) ⟨64 :: rest, line, paren⟩ = .ok (o, ⟨rest, line, paren⟩) :=
+  ⟨parseName_rel o ho ls l hforms hLs htotal hnotat rest hrest line paren, parseName_at o rest hrest line paren⟩
+
+/-- a name field — absolute, relative or `@` — is read as the name it denotes, wherever a name
+    is expected (owner, RDATA, `$ORIGIN`) -/
+theorem C23_name_field (origin : Option (List UInt8)) (hO : ∀ o, origin = some o → NameWF o) (n : PName)
+    (hwf : WFName n) (w : List UInt8) (hw : nameWire origin n = some w) (rest : List UInt8)
+    (hrest : atFieldEnd rest = true) (line : Nat) (paren : Bool) :
+    parseName origin ⟨nameText n ++ rest, line, paren⟩ = .ok (w, ⟨rest, line + nameLines n, paren⟩) :=
+  (nameText_ok origin hO n hwf w hw).parse rest line paren hrest
 
 /-- `CLASSnnn` and `TYPEnnn` (RFC 3597 §5) -/
 theorem C23_class_type_forms (n : Nat) (hn : n ≤ 65535) :
     parseClass (renderClass n) = some n ∧ parseType (renderType n) = some n :=
   ⟨parseClass_render n hn, parseType_render n hn⟩
+
+/-- TYPE and CLASS fields, mnemonic (any case) or numeric form: read as their value, and never
+    mistaken for a TTL (or, a type, for a class) -/
+theorem C23_mnemonics (c : PCode) :
+    (WFType c → parseType (typeText c) = some c.value ∧ parseU32 (typeText c) = none ∧
+      parseClass (typeText c) = none) ∧
+    (WFClass c → parseClass (classText c) = some c.value ∧ parseU32 (classText c) = none) :=
+  ⟨fun h => ⟨(typeText_ok c h).parse, (typeText_ok c h).notU32, (typeText_ok c h).notClass⟩,
+   fun h => ⟨(classText_ok c h).parse, (classText_ok c h).notU32⟩⟩
 
 /-- RFC 3597 generic RDATA, for any class and type -/
 theorem C23_generic_rdata (ctx : Ctx) (cls ty : Nat) (h41 : ty ≠ 41) (h250 : ty ≠ 250)
@@ -76,95 +109,174 @@ theorem C23_generic_rdata (ctx : Ctx) (cls ty : Nat) (h41 : ty ≠ 41) (h250 : t
       .ok (rd, ⟨r, line + 1, false⟩) :=
   parseRdata_generic ctx cls ty h41 h250 sep rd ws cmt r hne hsep hlen hvalid hws hc line
 
-/-- relative names are completed with the origin; `@` is the origin -/
-theorem C23_relative_name (o : List UInt8) (ho : NameWF o) (ls : List PLabel) (l : PLabel)
-    (hforms : ∀ l' ∈ ls ++ [l], ∀ x ∈ l', nameFormOK x.1 x.2 = true)
-    (hLs : LabelsOK ((ls ++ [l]).map labelOctets))
-    (htotal : (wireLabels ((ls ++ [l]).map labelOctets)).length + o.length ≤ 255)
-    (hnotat : renderLabels (ls ++ [l]) ≠ [64])
-    (rest : List UInt8) (hrest : atFieldEnd rest = true) (line : Nat) (paren : Bool) :
-    parseName (some o) ⟨renderLabels (ls ++ [l]) ++ rest, line, paren⟩ =
-      .ok (wireLabels ((ls ++ [l]).map labelOctets) ++ o, ⟨rest, line + ownerLines (.rel ls l), paren⟩) ∧
-    parseName (some o) ⟨64 :: rest, line, paren⟩ = .ok (o, ⟨rest, line, paren⟩) :=
-  ⟨parseName_rel o ho ls l hforms hLs htotal hnotat rest hrest line paren, parseName_at o rest hrest line paren⟩
+/-- **RDATA**, generic or typed (the kinds admitted by `WFRdata`: `\#`, one-name types, MX, SOA,
+    MINFO, SRV): the text, up to the end of the line, is read as the RDATA it denotes, and the
+    line count advances by the newlines inside names plus one -/
+theorem C23_rdata_partial (ctx : Ctx) (hctx : CtxWF ctx) (cls ty : Nat) (h41 : ty ≠ 41) (h250 : ty ≠ 250)
+    (sep ws cmt r : List UInt8) (hne : sep ≠ []) (hsep : ∀ x ∈ sep, isWs x = true)
+    (hws : ∀ x ∈ ws, isWs x = true) (hc : commentOK cmt) (rd : PRdata) (hwf : WFRdata rd)
+    (hk : kindOK cls ty rd = true) (w : List UInt8) (hw : rdataWire ctx.origin rd = some w)
+    (hv : ∀ g, rd = .generic g → Rdata.validate cls ty g.toArray = .ok ()) (line : Nat) :
+    parseRdata ctx cls ty ⟨sep ++ (rdataText sep rd ++ (ws ++ (cmt ++ 10 :: r))), line, false⟩ =
+      .ok (w, ⟨r, line + rdataLines rd + 1, false⟩) :=
+  parseRdata_render ctx hctx cls ty h41 h250 sep ws cmt r hne hsep hws hc rd hwf hk w hw hv line
 
 /-! ### records and files -/
 
 /-- one record line ↦ the record it denotes, and the context it leaves -/
 theorem C23_record_partial (ctx : Ctx) (hctx : CtxWF ctx) (p : PRecord) (hwf : WFRecord p) (line : Nat)
-    (r : List UInt8) (sr : SRecord) (sc' : SCtx) (hden : denoteRecord (toSCtx ctx) line p = some (sr, sc'))
-    (hvalid : Rdata.validate sr.cls p.ty p.rdata.toArray = .ok ()) :
+    (r : List UInt8) (sr : SRecord) (sc' : SCtx)
+    (hden : denoteRecord validB (toSCtx ctx) line p = some (sr, sc')) :
     ∃ ctx', parseLine ctx ⟨renderRecord p ++ r, line, false⟩ =
         .ok ((some (.record sr.line ⟨sr.owner, sr.ttl, sr.cls, sr.ty, sr.rdata⟩), ctx'),
-             ⟨r, line + ownerLines p.owner + 1, false⟩) ∧
+             ⟨r, line + recordLines p + 1, false⟩) ∧
       toSCtx ctx' = sc' :=
-  parseLine_record ctx hctx p hwf line r sr sc' hden hvalid
+  parseLine_record ctx hctx p hwf line r sr sc' hden
 
 /-- **Whole files (the subset above).**  For every list of well-formed entries and every
-    well-formed initial context in which the file denotes the records `srs` (each with RDATA valid
-    for its class and type): the parser yields exactly `srs`, in order, with their line numbers,
-    and nothing else. -/
+    well-formed initial context in which the file denotes the records `srs` (`validB`: RDATA
+    written in RFC 3597 form must be valid for its class and type, as RFC 3597 §5 asks): the
+    parser yields exactly `srs`, in order, with their line numbers, and nothing else. -/
 theorem C23_records_partial (es : List PEntry) (hwf : ∀ e ∈ es, WFEntry e) (ctx : Ctx) (hctx : CtxWF ctx)
-    (srs : List SRecord) (hden : denoteFile es (toSCtx ctx) 1 = some srs)
-    (hvalid : ∀ sr ∈ srs, Rdata.validate sr.cls sr.ty sr.rdata.toArray = .ok ()) :
+    (srs : List SRecord) (hden : denoteFile validB es (toSCtx ctx) 1 = some srs) :
     parseAll (renderFile es) ctx = srs.map itemOf :=
-  collect_file es hwf ctx hctx 1 srs hden hvalid
+  collect_file es hwf ctx hctx 1 srs hden
 
 /-! ### non-vacuity -/
 
-/-- `$ORIGIN t.` / `a\.b.\010c. CLASS1 5 TYPE1 \# 4 01020304 ;x` / (blank) / ` TYPE16 \# 2 0161`
-    / `$TTL 9` / `w CLASS3 TYPE99 \# 0` / `@ TYPE2 \# 3 017800` -/
+example : WFType (.mnemonic [110, 83] 2) ∧ WFClass (.mnemonic [105, 110] 1) :=
+  ⟨⟨"NS", by decide, by decide +kernel⟩, ⟨"IN", by decide, by decide +kernel⟩⟩
+
+private theorem mIN : WFClass (.mnemonic [105, 78] 1) := ⟨"IN", by decide, by decide +kernel⟩
+private theorem mNs : WFType (.mnemonic [78, 115] 2) := ⟨"NS", by decide, by decide +kernel⟩
+private theorem mMx : WFType (.mnemonic [109, 120] 15) := ⟨"MX", by decide, by decide +kernel⟩
+private theorem mSoa : WFType (.mnemonic [83, 79, 65] 6) := ⟨"SOA", by decide, by decide +kernel⟩
+private theorem mSrv : WFType (.mnemonic [83, 114, 118] 33) := ⟨"SRV", by decide, by decide +kernel⟩
+private theorem mMinfo : WFType (.mnemonic [77, 73, 78, 70, 79] 14) := ⟨"MINFO", by decide, by decide +kernel⟩
+
+private def nA : PName := .rel [] [(97, .raw)]
+private def nMail : PName := .abs [[(109, .raw), (92, .esc), (10, .esc)], [(120, .dec)]]
+
+/-- `$ORIGIN t.` / `a\.b.\010c. iN 5 TYPE1 \# 4 01020304 ;x` / (blank) / ` TYPE16 \# 2 0161` /
+    `$TTL 9` / `w CLASS3 TYPE99 \# 0` / `@ Ns a` / ` mx 10 m\\\<newline>.\120.` (two lines) /
+    ` SOA @ a 1 2 3 4 4294967295` / `a 7 iN Srv 1 2 3 @` / ` MINFO a m\\\<newline>.\120.` -/
 def exFile : List PEntry :=
   [.origin [[(116, .raw)]] [32] [] [],
-   .record ⟨.abs [[(97, .raw), (46, .esc), (98, .raw)], [(10, .dec), (99, .raw)]], some 5, some 1, true, 1,
-      [1, 2, 3, 4], [32], [32], [59, 120]⟩,
+   .record ⟨.named (.abs [[(97, .raw), (46, .esc), (98, .raw)], [(10, .dec), (99, .raw)]]), some 5,
+      some (.mnemonic [105, 78] 1), true, .generic 1, .generic [1, 2, 3, 4], [32], [32], [59, 120]⟩,
    .blank [9] [],
-   .record ⟨.same, none, none, false, 16, [1, 97], [32, 9], [], []⟩,
+   .record ⟨.same, none, none, false, .generic 16, .generic [1, 97], [32, 9], [], []⟩,
    .ttl 9 [32] [] [],
-   .record ⟨.rel [] [(119, .raw)], none, some 3, false, 99, [], [32], [], []⟩,
-   .record ⟨.atSign, none, none, true, 2, [1, 120, 0], [32], [], []⟩]
+   .record ⟨.named (.rel [] [(119, .raw)]), none, some (.generic 3), false, .generic 99, .generic [], [32], [], []⟩,
+   .record ⟨.named .atSign, none, none, true, .mnemonic [78, 115] 2, .name nA, [32], [], []⟩,
+   .record ⟨.same, none, none, true, .mnemonic [109, 120] 15, .mx 10 nMail, [32], [], []⟩,
+   .record ⟨.same, none, none, true, .mnemonic [83, 79, 65] 6, .soa .atSign nA 1 2 3 4 4294967295, [32], [], []⟩,
+   .record ⟨.named nA, some 7, some (.mnemonic [105, 78] 1), false, .mnemonic [83, 114, 118] 33,
+      .srv 1 2 3 .atSign, [9], [], []⟩,
+   .record ⟨.same, none, none, true, .mnemonic [77, 73, 78, 70, 79] 14, .minfo nA nMail, [32], [32], [59]⟩]
 
-/-- the example file is well-formed and denotes four records -/
+/-- the example file is well-formed and denotes nine records -/
 theorem exFile_ok :
     (∀ e ∈ exFile, WFEntry e) ∧
-    denoteFile exFile (toSCtx {}) 1 =
+    denoteFile validB exFile (toSCtx {}) 1 =
       some [⟨2, [3, 97, 46, 98, 2, 10, 99, 0], 5, 1, 1, [1, 2, 3, 4]⟩,
             ⟨4, [3, 97, 46, 98, 2, 10, 99, 0], 5, 1, 16, [1, 97]⟩,
             ⟨6, [1, 119, 1, 116, 0], 9, 3, 99, []⟩,
-            ⟨7, [1, 116, 0], 9, 3, 2, [1, 120, 0]⟩] := by
-  refine ⟨?_, by decide⟩
-  have wfAbs1 : WFOwnerAbs [[(116, .raw)]] :=
-    ⟨by simp, by decide, by simp [LabelsOK, labelOctets], by decide, by decide⟩
-  have wfAbs2 : WFOwnerAbs [[(97, .raw), (46, .esc), (98, .raw)], [(10, .dec), (99, .raw)]] :=
-    ⟨by simp, by decide, by simp [LabelsOK, labelOctets], by decide, by decide⟩
+            ⟨7, [1, 116, 0], 9, 3, 2, [1, 97, 1, 116, 0]⟩,
+            ⟨8, [1, 116, 0], 9, 3, 15, [0, 10, 3, 109, 92, 10, 1, 120, 0]⟩,
+            ⟨10, [1, 116, 0], 9, 3, 6, [1, 116, 0, 1, 97, 1, 116, 0, 0, 0, 0, 1, 0, 0, 0, 2, 0, 0, 0, 3,
+              0, 0, 0, 4, 255, 255, 255, 255]⟩,
+            ⟨11, [1, 97, 1, 116, 0], 7, 1, 33, [0, 1, 0, 2, 0, 3, 1, 116, 0]⟩,
+            ⟨12, [1, 97, 1, 116, 0], 9, 1, 14, [1, 97, 1, 116, 0, 3, 109, 92, 10, 1, 120, 0]⟩] := by
+  refine ⟨?_, by decide +kernel⟩
+  have wfA : WFName nA := by unfold nA WFName; exact ⟨by decide, by simp [LabelsOK, labelOctets], by decide⟩
+  have wfMail : WFName nMail := by
+    unfold nMail WFName; exact ⟨by simp, by decide, by simp [LabelsOK, labelOctets], by decide⟩
+  have noOwner : ∀ n : PName, POwner.same = .named n → WFName n ∧ (nameText n).head? ≠ some 36 := by
+    intro n h; cases h
   intro e he
   simp only [exFile, List.mem_cons, List.mem_nil_iff, or_false] at he
-  rcases he with rfl | rfl | rfl | rfl | rfl | rfl | rfl
-  · exact ⟨wfAbs1, by simp, by decide, by decide, .inl rfl⟩
-  · refine ⟨by simp, by decide, by decide, .inr ⟨[120], rfl, by decide⟩, ?_, ?_, by decide, by decide, by decide, by decide⟩
-    · intro ls hls; cases hls; exact wfAbs2
-    · intro ls l hls; cases hls
+  rcases he with rfl | rfl | rfl | rfl | rfl | rfl | rfl | rfl | rfl | rfl | rfl
+  · exact ⟨⟨by simp, by decide, by simp [LabelsOK, labelOctets], by decide⟩, by simp, by decide, by decide, .inl rfl⟩
+  · refine ⟨by simp, by decide, by decide, .inr ⟨[120], rfl, by decide⟩, ?_, by decide, ?_,
+      ⟨by simp [WFType], by decide, by decide, by decide⟩, by simp [WFRdata]⟩
+    · intro n hn; cases hn
+      exact ⟨⟨by simp, by decide, by simp [LabelsOK, labelOctets], by decide⟩, by decide⟩
+    · intro c hc; cases hc; exact mIN
   · exact ⟨by decide, .inl rfl⟩
-  · refine ⟨by simp, by decide, by decide, .inl rfl, ?_, ?_, by decide, by decide, by decide, by decide⟩
-    · intro ls hls; cases hls
-    · intro ls l hls; cases hls
+  · exact ⟨by simp, by decide, by decide, .inl rfl, noOwner, by decide, (by intro c hc; cases hc),
+      ⟨by simp [WFType], by decide, by decide, by decide⟩, by simp [WFRdata]⟩
   · exact ⟨by decide, by simp, by decide, by decide, .inl rfl⟩
-  · refine ⟨by simp, by decide, by decide, .inl rfl, ?_, ?_, by decide, by decide, by decide, by decide⟩
-    · intro ls hls; cases hls
-    · intro ls l hls; cases hls
-      exact ⟨by decide, by simp [LabelsOK, labelOctets], by decide, by decide⟩
-  · refine ⟨by simp, by decide, by decide, .inl rfl, ?_, ?_, by decide, by decide, by decide, by decide⟩
-    · intro ls hls; cases hls
-    · intro ls l hls; cases hls
+  · refine ⟨by simp, by decide, by decide, .inl rfl, ?_, by decide, ?_,
+      ⟨by simp [WFType], by decide, by decide, by decide⟩, by simp [WFRdata]⟩
+    · intro n hn; cases hn
+      exact ⟨⟨by decide, by simp [LabelsOK, labelOctets], by decide⟩, by decide⟩
+    · intro c hc; cases hc; exact (by decide : (3 : Nat) ≤ 65535)
+  · refine ⟨by simp, by decide, by decide, .inl rfl, ?_, by decide, (by intro c hc; cases hc),
+      ⟨mNs, by decide, by decide, by decide⟩, ⟨wfA, by decide⟩⟩
+    intro n hn; cases hn; exact ⟨trivial, by decide⟩
+  · exact ⟨by simp, by decide, by decide, .inl rfl, noOwner, by decide, (by intro c hc; cases hc),
+      ⟨mMx, by decide, by decide, by decide⟩, ⟨by decide, wfMail⟩⟩
+  · exact ⟨by simp, by decide, by decide, .inl rfl, noOwner, by decide, (by intro c hc; cases hc),
+      ⟨mSoa, by decide, by decide, by decide⟩,
+      ⟨trivial, wfA, by decide, by decide, by decide, by decide, by decide, by decide⟩⟩
+  · refine ⟨by simp, by decide, by decide, .inl rfl, ?_, by decide, ?_,
+      ⟨mSrv, by decide, by decide, by decide⟩, ⟨by decide, by decide, by decide, trivial⟩⟩
+    · intro n hn; cases hn; exact ⟨wfA, by decide⟩
+    · intro c hc; cases hc; exact mIN
+  · exact ⟨by simp, by decide, by decide, .inr ⟨[], rfl, by simp⟩, noOwner, by decide, (by intro c hc; cases hc),
+      ⟨mMinfo, by decide, by decide, by decide⟩, ⟨wfA, wfMail, by decide⟩⟩
 
 /-- … so the theorem applies to it -/
 example : parseAll (renderFile exFile) {} =
     [.item (.record 2 ⟨[3, 97, 46, 98, 2, 10, 99, 0], 5, 1, 1, [1, 2, 3, 4]⟩),
      .item (.record 4 ⟨[3, 97, 46, 98, 2, 10, 99, 0], 5, 1, 16, [1, 97]⟩),
      .item (.record 6 ⟨[1, 119, 1, 116, 0], 9, 3, 99, []⟩),
-     .item (.record 7 ⟨[1, 116, 0], 9, 3, 2, [1, 120, 0]⟩)] := by
-  rw [C23_records_partial exFile exFile_ok.1 {} CtxWF_default _ exFile_ok.2 (by decide +kernel)]
+     .item (.record 7 ⟨[1, 116, 0], 9, 3, 2, [1, 97, 1, 116, 0]⟩),
+     .item (.record 8 ⟨[1, 116, 0], 9, 3, 15, [0, 10, 3, 109, 92, 10, 1, 120, 0]⟩),
+     .item (.record 10 ⟨[1, 116, 0], 9, 3, 6, [1, 116, 0, 1, 97, 1, 116, 0, 0, 0, 0, 1, 0, 0, 0, 2, 0, 0, 0, 3,
+              0, 0, 0, 4, 255, 255, 255, 255]⟩),
+     .item (.record 11 ⟨[1, 97, 1, 116, 0], 7, 1, 33, [0, 1, 0, 2, 0, 3, 1, 116, 0]⟩),
+     .item (.record 12 ⟨[1, 97, 1, 116, 0], 9, 1, 14, [1, 97, 1, 116, 0, 3, 109, 92, 10, 1, 120, 0]⟩)] := by
+  rw [C23_records_partial exFile exFile_ok.1 {} CtxWF_default _ exFile_ok.2]
   rfl
+
+/-- the same file, evaluated directly: the text is what it is meant to be and the parser yields
+    eight records -/
+example : (parseAll (renderFile exFile) {}).length = 8 := by decide +kernel
+
+/-- RDATA alone: `10 mail` after the type field of an MX record, origin `t.` -/
+example : parseRdata { origin := some [1, 116, 0] } 1 15
+    ⟨[32] ++ (rdataText [32] (.mx 10 nA) ++ ([] ++ ([] ++ 10 :: []))), 1, false⟩ =
+    .ok ([0, 10, 1, 97, 1, 116, 0], ⟨[], 2, false⟩) :=
+  C23_rdata_partial { origin := some [1, 116, 0] }
+    ⟨by intro o ho; cases ho; exact ⟨[[116]], by simp [LabelsOK], by decide, by decide⟩, by simp⟩
+    1 15 (by decide) (by decide) [32] [] [] [] (by simp) (by decide) (by simp) (.inl rfl) (.mx 10 nA)
+    ⟨by decide, by unfold nA WFName; exact ⟨by decide, by simp [LabelsOK, labelOctets], by decide⟩⟩
+    (by decide) _ (by decide) (by intro g hg; cases hg) 1
+
+private def exRec : PRecord := ⟨.same, none, none, true, .mnemonic [109, 120] 15, .mx 10 nA, [32], [], []⟩
+
+/-- one record line: ` mx 10 a` with previous owner `t.`, TTL 9, class 1 -/
+example : ∃ ctx', parseLine { origin := some [1, 116, 0], prevOwner := some [1, 116, 0], prevTtl := some 9, prevClass := some 1 }
+      ⟨renderRecord exRec ++ [], 1, false⟩ =
+      .ok ((some (.record 1 ⟨[1, 116, 0], 9, 1, 15, [0, 10, 1, 97, 1, 116, 0]⟩), ctx'), ⟨[], 2, false⟩) ∧
+      toSCtx ctx' = ⟨some [1, 116, 0], some [1, 116, 0], some 9, some 1, none⟩ := by
+  have hT : NameWF [1, 116, 0] := ⟨[[116]], by simp [LabelsOK], by decide, by decide⟩
+  have hwf : WFRecord exRec :=
+    ⟨by simp [exRec], by decide, by decide, .inl rfl, (by intro n h; cases h), by decide, (by intro c hc; cases hc),
+      ⟨mMx, by decide, by decide, by decide⟩,
+      ⟨by decide, by unfold nA WFName; exact ⟨by decide, by simp [LabelsOK, labelOctets], by decide⟩⟩⟩
+  exact C23_record_partial _ ⟨by intro o ho; cases ho; exact hT, by intro o ho; cases ho; exact hT⟩ exRec hwf
+    1 [] ⟨1, [1, 116, 0], 9, 1, 15, [0, 10, 1, 97, 1, 116, 0]⟩ _ (by decide +kernel)
+
+/-- a name field: `a\.b` relative to `t.` -/
+example : parseName (some [1, 116, 0]) ⟨nameText (.rel [] [(97, .raw), (46, .esc), (98, .raw)]) ++ [10], 1, false⟩ =
+    .ok ([3, 97, 46, 98, 1, 116, 0], ⟨[10], 1, false⟩) :=
+  C23_name_field (some [1, 116, 0])
+    (by intro o ho; cases ho; exact ⟨[[116]], by simp [LabelsOK], by decide, by decide⟩) _
+    (by unfold WFName; exact ⟨by decide, by simp [LabelsOK, labelOctets], by decide⟩) _ (by decide) [10]
+    (by decide) 1 false
 
 /-- concrete witness beyond the proved subset (parentheses, comments inside them, quoted strings,
     mnemonics): `$ORIGIN t.` / `@ 5 IN NS ( a` / ` ) ; c` / ` TXT "x y" z` -/
